@@ -16,9 +16,12 @@ Trans == UpdKeys \X NewVals \X Paths \X CondSets
 ThmFrame == \A t \in Trans : LET r == UpdateOp(m, t[1], t[2], t[3], t[4]) IN
                /\ UpdateFrame(m, r.n, r.c, t[1], t[2], t[3], t[4])
                /\ UpdateReadBack(r.n, r.c, t[1], t[2], t[3], t[4])
+\* replayed as well: a new value that is NOT fresh (equal to a value some addressed entry may already hold); the
+\* operational UpdateOp counts every addressed entry, changed or not -- the frame theorem above needs freshness
+TransE == UpdKeys \X (NewVals \cup {VS("x")}) \X Paths \X CondSets
 TCase(t) == LET r == UpdateOp(m, t[1], t[2], t[3], t[4]) IN
             [key |-> t[1], val |-> t[2], p |-> DotJoin(t[3]), conds |-> SetToSeq(t[4]), post |-> r.n, c |-> r.c]
-Emit == DoEmit => PrintT(ToJson([f |-> "upd", m |-> m, ts |-> SetToSeq({TCase(t) : t \in Trans})]))
+Emit == DoEmit => PrintT(ToJson([f |-> "upd", m |-> m, ts |-> SetToSeq({TCase(t) : t \in TransE})]))
 Spec == GenSpec
 cScalars == {VS("x"), VS("y")}
 cConts == {EmptyMap, EmptyList}
